@@ -161,3 +161,32 @@ def facts(path, upto=None, al=None):
 
 def calls_in(node, pred):
     return [n for n in ast.walk(node) if isinstance(n, ast.Call) and pred(n)]
+
+
+def local_env(prog, f):
+    """name -> folded value for the locals of f that are assigned exactly once from a foldable expression."""
+    from .pysrc import Unknown
+
+    cnt, env = {}, {}
+    for n in ast.walk(f.node):
+        if isinstance(n, ast.Assign) and len(n.targets) == 1 and isinstance(n.targets[0], ast.Name):
+            cnt[n.targets[0].id] = cnt.get(n.targets[0].id, 0) + 1
+    for n in ast.walk(f.node):
+        if isinstance(n, ast.Assign) and len(n.targets) == 1 and isinstance(n.targets[0], ast.Name) and cnt[n.targets[0].id] == 1:
+            v = prog.const(n.value, f.module, env, f.cls)
+            if not isinstance(v, Unknown):
+                env[n.targets[0].id] = v
+    return env
+
+
+def tables_by_use(prog, f):
+    """[(dict value, Subscript node)] for every `T[key]` in f whose T folds to a dict - wherever T is defined (inline literal, local,
+    class attribute, module constant)."""
+    env = local_env(prog, f)
+    out = []
+    for n in ast.walk(f.node):
+        if isinstance(n, ast.Subscript) and isinstance(n.ctx, ast.Load):
+            v = prog.const(n.value, f.module, env, f.cls)
+            if isinstance(v, dict) and v:
+                out.append((v, n))
+    return out
